@@ -30,9 +30,18 @@ CLAIM = dict(
          'holds with the MODEL of matrix_svd itself, same e and r at every call, for every eigh / argsort routine meeting '
          'their contracts, non-empty boundary ranks and a cap above r1*n so that it never binds '
          '(C17_core_tt_to_qtt_error_matrix_svd); non-vacuity: a run over Qc in which both calls cut something '
-         '(C17_trunc_error_example). PARTIAL: the whole-tensor bound for tt_to_qtt over several cores (how the per-core '
-         'errors combine through the neighbouring, non-orthogonalised cores) is not proved, nor is the case of a binding '
-         'cap; both are checked numerically by the search (dense reference). '
+         '(C17_trunc_error_example). WHOLE TENSOR, at the reals (tt_to_qtt over d cores, boundary ranks 1, every mode size '
+         '2^q, q>=1, every rank profile): if every core meets the per-core hypotheses (step contract and residual <= e^2 at '
+         'every call the run on that core makes), then, with c = sqrt(q) e and |G| the Frobenius norm of a core, the Frobenius '
+         'distance between the tensor and the QTT result read at the binary expansion of the multi-index is '
+         '<= sum_j c prod_{l<j}(|G_l|+c) prod_{l>j}|G_l| (stated recursively as pbound), which is <= sum_j c prod_{l<>j}(|G_l|+c) '
+         '(sbound, the form the search applies) (C17_tt_to_qtt_error_R, _proj_R; via the general chain perturbation bound '
+         'C17_chain_perturbation and sub-multiplicativity C17_chain_norm: telescoping over the cores, Cauchy-Schwarz at each '
+         'bond, Minkowski); with the MODEL of matrix_svd on every core (same e, r), ranks >= 1 and a cap above r1*n of every '
+         'core, the conversion succeeds and the bound holds (C17_tt_to_qtt_error_matrix_svd); non-vacuity: a two-core run at '
+         'the reals whose first core is genuinely truncated (C17_tt_to_qtt_error_example). PARTIAL: the case of a binding cap '
+         '(rank limit r reached) is not proved; it is checked numerically by the search (dense reference). The whole-tensor '
+         'theorems take the same mode size 2^q for every core (as the denotation theorems do). '
          'Mode size 1 (= 2^0) is outside the model (teneva returns a malformed core or raises depending on parity).',
     note='Trusted: Coq kernel, vm_compute for case evaluation, the hand-written models (validated by the correspondence: '
          'index maps exhaustively for q*d<=8 (12 thorough) plus a malformed stream; qtt_to_tt exactly on integer cores (Z '
@@ -40,7 +49,8 @@ CLAIM = dict(
          'cores compared to 1e-12), numpy ravel/unravel/reshape/tensordot/hstack semantics as re-expressed in the models. '
          'matrix_svd is an oracle here (its own contract is property C02); IEEE rounding is outside the theorems.',
     technique='Coq proof (induction over digits; loop invariant of the halving sweep over an abstract ring; Pythagoras '
-              'per projection step, one induction over an abstract comparison instantiated by = and by <= on R) + exhaustive / '
+              'per projection step, one induction over an abstract comparison instantiated by = and by <= on R; Cauchy-Schwarz / '
+              'Minkowski for abstract positive linear functionals, induction over the list of cores) + exhaustive / '
               'exact / replayed model-implementation correspondence + dense reference search')
 TRUSTED = ['Coq 8.16.1 kernel + vm_compute (case evaluation only)',
            'hand-written models Model/GridInd.v, Model/Qtt.v tied to grid.py / core.py / act_one.py by the correspondence',
@@ -185,7 +195,7 @@ def corr_tt_to_qtt(R, tn, rng, th):
                                               e=e, cap=cap, inner=p_in, shape=list(A.shape), A=A.tolist()))
                 gram = V @ V.T
                 dg = np.diag(gram)
-                if np.abs(gram - np.diag(dg)).max(initial=0.) > 1e-8 or np.any(np.minimum(np.abs(dg - 1), np.abs(dg)) > 1e-8):
+                if np.abs(gram - np.diag(dg)).max(initial=0.) > 1e-6 or np.any(np.minimum(np.abs(dg - 1), np.abs(dg)) > 1e-6):   # sqrt(eps) floor of the eigh route: a kept noise direction has a row of size ~1.5e-8
                     resid_bad.append(dict(what='matrix_svd right factor: rows are not orthonormal-or-zero', shape=list(A.shape),
                                           A=A.tolist(), e=e, cap=cap))
         recterm = '[' + '; '.join('[' + '; '.join(f'({_coq_mat(U)}, {_coq_mat(V)})' for U, V, _ in rc) + ']' for rc in recs) + ']'
